@@ -12,8 +12,8 @@ import json, os, subprocess, sys, glob, re
 HERE = os.path.dirname(os.path.dirname(os.path.abspath(__file__)))
 FALLBACK = {
     "C01": ["C07", "C02", "C06"], "C02": ["C13", "C01"], "C03": ["C15", "C04"], "C04": ["C05", "C03"],
-    "C05": ["C13", "C14", "C04"], "C06": ["C07", "C01"], "C07": ["C01"], "C08": ["C07"], "C10": [],
-    "C12": ["C01"], "C13": ["C02"], "C14": ["C05"], "C15": ["C03"], "C18": ["C07", "C04"],
+    "C05": ["C13", "C14", "C04"], "C06": ["C07", "C01"], "C07": ["C08", "C18", "C01"], "C08": ["C07"], "C10": ["C18"],
+    "C12": ["C01"], "C13": ["C02"], "C14": ["C05"], "C15": ["C03", "C05"], "C18": ["C10", "C07", "C04"],
 }
 BUDGET = os.environ.get("BUDGET", "40")
 WORKERS = os.environ.get("WORKERS", "16")
